@@ -63,7 +63,7 @@ func load(repo string) *pkgInfo {
 			continue
 		}
 		base := filepath.Base(n)
-		if strings.HasPrefix(base, "verif_") {
+		if strings.HasPrefix(base, "verif_") && base != "verif_point_off.go" {
 			continue // hook files (build tag verif) are not part of the package proper
 		}
 		f, err := parser.ParseFile(fset, n, nil, parser.ParseComments)
@@ -999,5 +999,7 @@ func main() {
 	} else {
 		write(*out, b.String())
 	}
-	_ = irOut
+	if *irOut != "" {
+		write(*irOut, genIR(*repo, p))
+	}
 }
